@@ -59,7 +59,8 @@ DT = {'f32': (TT.FLOAT32, np.float32), 'i32': (TT.INT32, np.int32)}
 CONST_STYLES_SANE = ['normal', 'normal', 'normal', 'positive', 'negative',
                      'outlier']
 CONST_STYLES_ALL = CONST_STYLES_SANE + ['constant', 'zeros', 'tiny', 'huge',
-                                        'onesided_small', 'grid']
+                                        'onesided_small', 'grid', 'lattice',
+                                        'lattice', 'near_lattice', 'near_lattice']
 
 
 # --------------------------------------------------------------------------
@@ -101,6 +102,30 @@ def const_values(t):
   elif style == 'grid':
     # values on a coarse grid: many exact rounding ties after quantization
     a = np.round(a * 4) / 4.0 * mag
+  elif style in ('lattice', 'near_lattice'):
+    # values whose range sits exactly on (lattice) or a fraction of a step off
+    # (near_lattice) the code lattice of 4- or 8-bit asymmetric quantization with
+    # a chosen zero point (0, an end of the type, next to one, or any): both end
+    # values are present in every slice along axis 0 and along the last axis
+    bits = 4 if rs.randint(3) == 0 else 8
+    lo_c, hi_c = -(2 ** (bits - 1)), 2 ** (bits - 1) - 1
+    edge = [lo_c, lo_c + 1, -1, 0, 0, 0, 1, hi_c - 1, hi_c]
+    t = edge[rs.randint(len(edge))] if rs.randint(4) else rs.randint(lo_c, hi_c + 1)
+    step = 2.0 ** rs.randint(-9, 2)
+    f = 0.0 if style == 'lattice' else rs.uniform(-0.45, 0.45)
+    vmin, vmax = (lo_c - t - f) * step, (hi_c - t - f) * step
+    a = rs.uniform(vmin, vmax, size=shape) if shape else np.asarray(vmin)
+    a = np.asarray(a, np.float64)
+    if a.ndim >= 1 and a.size >= 2:
+      b2 = a.reshape(a.shape[0], -1) if a.ndim >= 2 else a.reshape(1, -1)
+      if b2.shape[1] >= 2:
+        b2[:, 0], b2[:, -1] = vmin, vmax
+      else:
+        b2[0, 0], b2[-1, 0] = vmin, vmax
+      a = b2.reshape(shape)
+      if a.ndim >= 2 and a.shape[0] >= 2:
+        a[0, ..., :] = np.where(np.arange(a.shape[-1]) % 2 == 0, vmin, vmax) if a.shape[-1] >= 2 else a[0, ..., :]
+        a[-1, ..., :] = np.where(np.arange(a.shape[-1]) % 2 == 0, vmax, vmin) if a.shape[-1] >= 2 else a[-1, ..., :]
   else:
     raise KeyError(style)
   return np.asarray(a, dt).reshape(shape)
@@ -1015,3 +1040,37 @@ def sharer_groups(mspec, min_rank=0):
         key = tuple(tt['share']) if tt.get('share') is not None else (si, t)
         by_const.setdefault(key, []).append(sg['tensors'][n['out'][0]]['name'])
   return [sorted(set(v)) for v in by_const.values() if len(set(v)) >= 2]
+
+
+def to_external(model_bytes):
+  """The same model with every tensor constant stored after the flatbuffer
+  (Buffer.offset/size, 16-byte aligned) - the form a > 2 GB model necessarily has."""
+  import flatbuffers
+  root = S.Model.GetRootAs(bytes(model_bytes), 0)
+  m = S.ModelT.InitFromObj(root)
+  used = set()
+  for g in m.subgraphs:
+    for t in g.tensors:
+      used.add(int(t.buffer))
+  datas = {}
+  for i, b in enumerate(m.buffers):
+    if i in used and b.data is not None and len(b.data):
+      datas[i] = (b.data.tobytes() if isinstance(b.data, np.ndarray) else bytes(bytearray(b.data)))
+      b.data = None
+      b.offset, b.size = 1, 1   # non-default placeholders keep the table size fixed
+
+  def pack():
+    bld = flatbuffers.Builder(1024)
+    bld.Finish(m.Pack(bld), file_identifier=b'TFL3')
+    return bytes(bld.Output())
+  first = pack()
+  pos = len(first) + (-len(first)) % 16
+  for i in sorted(datas):
+    m.buffers[i].offset, m.buffers[i].size = pos, len(datas[i])
+    pos += len(datas[i]) + (-len(datas[i])) % 16
+  out = bytearray(pack())
+  assert len(out) == len(first)
+  for i in sorted(datas):
+    out += b'\0' * (m.buffers[i].offset - len(out))
+    out += datas[i]
+  return bytes(out)
